@@ -37,10 +37,12 @@ Definition gcomm_step (s : gc) (e : yev) : gc * list yout :=
   | YLinkDown =>
     let s0 := {| g_cur := g_cur s; g_link := false; g_t3 := g_t3 s; g_delay := g_delay s |} in
     if is s communication_COMMUNICATING then let '(s1, o, _) := comm_request s0 "communicationfail" in (s1, o) else (s0, [])
-  | YInS1F13 =>
+  | YInS1F13 accept =>
+    let a := if accept then 0 else 1 in
     if is s communication_WAIT_CRA then
-      let '(s1, o, _) := comm_request s "s1f13received" in (s1, YSendS1F14 0 :: o)
-    else if is s communication_COMMUNICATING then (s, [YSendS1F14 0])          (* _handle_stream_function -> _on_s01f13 *)
+      (* answered with on_commack_requested(); only COMMACK 0 makes the transition (D41) *)
+      if accept then let '(s1, o, _) := comm_request s "s1f13received" in (s1, YSendS1F14 a :: o) else (s, [YSendS1F14 a])
+    else if is s communication_COMMUNICATING then (s, [YSendS1F14 a])          (* _handle_stream_function -> _on_s01f13 *)
     else (s, [])
   | YInS1F14 c readable =>
     if is s communication_WAIT_CRA then
